@@ -365,6 +365,16 @@ func (w *world) submit(r *run, k int) (ok bool, class string) {
 		msg := vm.MsgAddPackage{Creator: w.accts[s.Str("c")].Addr, Package: memPackage(path, name, fm)}
 		res := w.deliver(s.Str("c"), msg)
 		txs++
+		if os.Getenv("PKG_DEBUG") != "" && !res.IsOK() {
+			l := res.Log
+			if i := strings.Index(l, "Data:"); i >= 0 {
+				l = l[i:]
+			}
+			if len(l) > 260 {
+				l = l[:260]
+			}
+			fmt.Fprintf(os.Stderr, "ADDPKG %s why=%s -> %s\n", brief(s), s.Str("why"), strings.ReplaceAll(l, "\n", " "))
+		}
 		return res.IsOK(), errClass(res.Error)
 	case "Call":
 		path, _ := w.pathOf("r1", r.u)
